@@ -57,7 +57,7 @@ BYTE_AT = ('elems(self._bytes)[k] == ((item_value(self, k // {w}) % 2 ** (8 * {w
            ' // 2 ** (8 * ite(self._endian == "little", k % {w}, {w} - 1 - k % {w}))) % 256').format(w=W)
 DONE = 'forall(lambda k: implies(0 <= k and k < ' + W + ' * {n}, ' + BYTE_AT + '))'
 
-contract(DL + '.generate_bytes', props=['C11', 'C02'],
+contract(DL + '.generate_bytes', props=['C11', 'C02', 'C07', 'C14'],
          requires=['data_directive_ok(self._directive)', 'len(self._bytes) == 0', ITEMS_OK,
                    'self._endian == "big" or self._endian == "little"',
                    'self._arg_value_list is not self._bytes'],
